@@ -2,7 +2,7 @@
 // dq_atomic_flags and dq_state of the source and to read them for the stuck detector; every operation goes through
 // the public API: dispatch_source_create / set_event_handler_f / merge_data / get_data / suspend / resume / cancel).
 // usage: c15_srcdata <seed> <rounds<=20> <perturb_permille>
-// One round = one custom data source (kind = ADD / OR / REPLACE, target = serial / concurrent / global queue),
+// One round = one custom data source (kind = ADD / OR / REPLACE, target = serial / concurrent / global / overcommit root queue),
 // 2..8 pthreads merging random values, one pthread suspending/resuming, a handler that sometimes sleeps.
 // Recorded objects per round r: 3r = ds_pending_data, 3r+1 = dq_atomic_flags, 3r+2 = dq_state; user events carry obj 3r.
 // Output:
@@ -22,7 +22,7 @@ typedef struct {
 	uint64_t sentinel; uint64_t hrng;
 } slot_t;
 static slot_t slots[MAXR];
-typedef struct { slot_t *s; int idx, n; uint64_t rng; } targ_t;
+typedef struct { slot_t *s; int idx, n; uint64_t rng, last; } targ_t;
 static pthread_barrier_t bar;
 
 static inline uint64_t xr(uint64_t *s) { uint64_t x = *s; x ^= x << 13; x ^= x >> 7; x ^= x << 17; return *s = x; }
@@ -46,11 +46,12 @@ static void handler(void *ctx) {
 
 static uint64_t pick(slot_t *s, targ_t *t, int c) {
 	uint64_t r = xr(&t->rng);
-	if ((r & 15) == 0) return 0;                                  // rare zero merge
+	if ((r & 15) == 0 || (s->kind == 2 && (r & 7) == 1)) return 0;  // zero merges (REPLACE: they erase a pending value)
 	switch (s->kind) {
-	case 0: // ADD: small, large and wrap-around-provoking operands
-		switch ((r >> 4) % 4) {
+	case 0: // ADD: small, large and wrap-around-provoking operands (incl. the negation of this thread's previous operand)
+		switch ((r >> 4) % 5) {
 		case 0: return 1 + (r >> 8) % 9;
+		case 4: return (uint64_t)0 - t->last;
 		case 1: return r >> 8;
 		case 2: return 0xFFFFFFFFFFFFFFFFull - (r >> 8) % 5;
 		default: return r | 0x8000000000000000ull;
@@ -70,6 +71,7 @@ static void *merger(void *a) {
 		uint64_t r = xr(&t->rng);
 		if (r % 3 == 0) usleep((useconds_t)((r >> 8) % 150)); else if (r % 3 == 1) sched_yield();
 		uint64_t v = pick(s, t, c);
+		t->last = v;
 		dv_user(DVU_CALL, 3 * s->round, v, 0);
 		dispatch_source_merge_data(s->ds, (uintptr_t)v);
 		dv_user(DVU_RET, 3 * s->round, 0, 0);
@@ -123,8 +125,9 @@ int main(int argc, char **argv) {
 	for (int i = 0; i < nrounds; i++) {
 		r = r * 6364136223846793005ull + 1442695040888963407ull;
 		slot_t *s = &slots[i];
-		s->round = i; s->kind = (int)((i + (seed % 3)) % 3); s->target = (int)(((unsigned)i / 3 + (unsigned)(seed / 3)) % 3);
-		s->tq = s->target == 0 ? serialq : s->target == 1 ? concq : dispatch_get_global_queue(0, 0);
+		s->round = i; s->kind = (int)((i + (seed % 3)) % 3); s->target = (int)(((unsigned)i / 3 + (unsigned)(seed / 3)) % 4);
+		// target 3: NULL = the default overcommit root queue (no starvation-avoidance re-test after the handler, source.c:810)
+		s->tq = s->target == 0 ? serialq : s->target == 1 ? concq : s->target == 2 ? dispatch_get_global_queue(0, 0) : NULL;
 		dispatch_source_type_t ty = s->kind == 0 ? DISPATCH_SOURCE_TYPE_DATA_ADD : s->kind == 1 ? DISPATCH_SOURCE_TYPE_DATA_OR
 				: DISPATCH_SOURCE_TYPE_DATA_REPLACE;
 		s->ds = dispatch_source_create(ty, 0, 0, s->tq);
@@ -140,7 +143,7 @@ int main(int argc, char **argv) {
 		pthread_t th[MAXT + 1]; targ_t ta[MAXT + 1];
 		pthread_barrier_init(&bar, NULL, (unsigned)n + 2);
 		for (int k = 0; k <= n; k++) {
-			ta[k].s = s; ta[k].idx = k; ta[k].rng = (r ^ ((uint64_t)(k + 1) * 0x9E3779B97F4A7C15ull)) | 1;
+			ta[k].s = s; ta[k].idx = k; ta[k].last = 0; ta[k].rng = (r ^ ((uint64_t)(k + 1) * 0x9E3779B97F4A7C15ull)) | 1;
 			ta[k].n = k < n ? 4 + (int)((r >> (k + 5)) % 28) : 2 + (int)((r >> 40) % 5);
 			pthread_create(&th[k], NULL, k < n ? merger : suspender, &ta[k]);
 		}
